@@ -212,7 +212,15 @@ def run_case(case, res):
                 elif op in ("extend", "pre_extend"):
                     ps = [fresh() for _ in range(k)]
                     desc = f"{op}({k})"
-                    (l.extend if op == "extend" else l.pre_extend)(ps if a % 2 else iter(ps))
+                    src_list = None
+                    if a % 5 == 4:
+                        # the payloads come from another DoublyLinkedList (an iterable like any other): afterwards the two
+                        # lists share nothing - the source is intact and changing it does not show in this list
+                        src_list = DoublyLinkedList(ps)
+                        desc = f"{op}(another list of {k})"
+                        (l.extend if op == "extend" else l.pre_extend)(src_list)
+                    else:
+                        (l.extend if op == "extend" else l.pre_extend)(ps if a % 2 else iter(ps))
                     # identify the new nodes structurally
                     if op == "extend":
                         new = []
@@ -237,6 +245,19 @@ def run_case(case, res):
                         model[0:0] = new
                     if len(new) != k or any(x.data is not p for x, p in zip(new, want)):
                         raise Violation("forward-sequence", f"{desc} did not add the given payloads in order", {})
+                    if src_list is not None:
+                        got_src = []
+                        node = src_list.head
+                        while node is not None and len(got_src) <= k:
+                            got_src.append(node)
+                            node = node.next_node
+                        if len(src_list) != k or len(got_src) != k or any(x.data is not p for x, p in zip(got_src, ps)) or \
+                                (k and (src_list.head.prev_node is not None or src_list.tail.next_node is not None)) or \
+                                any(x is y for x in got_src for y in new):
+                            raise Violation("shared-nodes", f"{desc}: the source list is changed or shares nodes with the extended one", {})
+                        src_list.append("appended to the source afterwards")
+                        if k:
+                            src_list.pop_front()
                     for x in new:
                         payload_of[id(x)] = x.data
                 elif op in ("extend_lazy", "pre_extend_lazy"):
